@@ -163,6 +163,17 @@ Record acase := mkCase {
   c_after : option (res (actx NF * archive NF))   (* registries and extracted numbers after it *)
 }.
 
+(* what the reading session holds after the load, according to the model *)
+Definition acase_loaded (c : acase) : res (actx NF * archive NF) :=
+  let fz := freeze NF (c_src c) (c_ar c) in
+  let loaded :=
+    match c_codec c with
+    | Pickle => fz
+    | Json => match c_jin c with Some (d, _) => json_decode NF d | None => Err OtherExn end
+    | Xml => match c_xin c with Some (d, _) => xml_decode NF d | None => Err OtherExn end
+    end in
+  f <- loaded ;; thaw NF (c_tgt c) f.
+
 Definition run_acase (c : acase) : Z :=
   let fz := freeze NF (c_src c) (c_ar c) in
   if negb (res_eqb frozen_eqb fz (c_frozen c)) then 1%Z else
@@ -173,14 +184,69 @@ Definition run_acase (c : acase) : Z :=
   match c_after c with
   | None => (-1)%Z
   | Some expected =>
-      let loaded :=
-        match c_codec c with
-        | Pickle => fz
-        | Json => match c_jin c with Some (d, _) => json_decode NF d | None => Err OtherExn end
-        | Xml => match c_xin c with Some (d, _) => xml_decode NF d | None => Err OtherExn end
-        end in
-      let got := f <- loaded ;; thaw NF (c_tgt c) f in
-      if res_eqb (pair_eqb' actx_eqb archive_eqb) got expected then (-1)%Z else 6%Z
+      if res_eqb (pair_eqb' actx_eqb archive_eqb) (acase_loaded c) expected then (-1)%Z else 6%Z
   end.
 
 Definition report_acases (cs : list acase) : list Z := map run_acase cs.
+
+(* ---------- continuing the calculation on the restored numbers, in the kernel model ----------
+   The registries and the numbers the MODEL restored become a kernel session state: leaves with
+   their correlation tables / ensembles / complex pairing (a list-valued pairing never equals a
+   tuple, like a missing attribute), intermediate node records, the context id and uid counters of
+   the reading session, and one object slot per restored real (tagged reals in order, then the
+   real and imaginary components of each tagged complex).  The recorded operations (arithmetic on
+   restored numbers, result() of quantities that depend on restored intermediates and elementary
+   numbers, reads, sensitivities and components w.r.t. new and restored intermediates,
+   covariances) are then run through Kernel.step and compared output by output. *)
+Definition ks_df (d : float) : dfval float :=
+  if f_is_inf d then DInf else if f_is_nan d then DNaN else DFin d.
+
+Fixpoint ks_leaves (i : nat) (l : list (key * aleaf NF)) : list (key * leaf float) :=
+  match l with
+  | [] => []
+  | (k, a) :: l' =>
+      (k, mkLeaf (al_u a) (ks_df (al_df a)) (al_indep a)
+                 (match al_corr a with Some c => c | None => [] end) i
+                 (match al_cplx a with Some (CTuple, x, y) => Some (x, y) | _ => None end) None)
+      :: ks_leaves (S i) l'
+  end.
+
+Definition ks_state (ctx ne ni : Z) (cx : actx NF) (A : archive NF) : state float :=
+  mkS ctx ne ni
+      (ks_leaves 0 (cx_leaves cx))
+      (map (fun kn : key * anode NF => (fst kn, mkNode (an_u (snd kn)) (ks_df (an_df (snd kn))) None)) (cx_nodes cx))
+      (map (fun kl : key * aleaf NF => match al_ens (snd kl) with Some e => e | None => [] end) (cx_leaves cx))
+      (map (fun to : string * ureal float => SReal (snd to) None) (a_treal A)
+       ++ flat_map (fun tz : string * cobj NF => [SReal (co_re (snd tz)) None; SReal (co_im (snd tz)) None]) (a_tcplx A)).
+
+Record dcase := mkDCase {
+  d_case : acase;
+  d_ctx : Z; d_ne : Z; d_ni : Z;            (* id and uid counters of the reading context after the load *)
+  d_tbl : list oracle_entry;                (* libm calls of the continued calculation *)
+  d_prog : list (op float);
+  d_outs : list (out float) }.
+
+(* -1 = agreement; 1..6 = archive stage; 100 + i = step i of the continued calculation *)
+Definition run_dcase (d : dcase) : Z :=
+  match run_acase (d_case d) with
+  | (-1)%Z =>
+      match acase_loaded (d_case d) with
+      | Ok (cx', A') =>
+          let N := FNum (d_tbl d) in
+          match first_mismatch N 0 (snd (run N (ks_state (d_ctx d) (d_ne d) (d_ni d) cx' A') (d_prog d))) (d_outs d) with
+          | None => (-1)%Z
+          | Some i => (100 + Z.of_nat i)%Z
+          end
+      | Err _ => (-1)%Z
+      end
+  | z => z
+  end.
+
+(* the model's own output at one step of the continuation, for diagnosis *)
+Definition dcase_out (d : dcase) (i : nat) : option (out float) :=
+  match acase_loaded (d_case d) with
+  | Ok (cx', A') =>
+      let N := FNum (d_tbl d) in
+      nth_error (snd (run N (ks_state (d_ctx d) (d_ne d) (d_ni d) cx' A') (d_prog d))) i
+  | Err _ => None
+  end.
